@@ -73,10 +73,15 @@ def read_cell_h(path):
     nb = int(cl[j].split()[0].lstrip("(")); j += 1
     idx = []
     for b in range(nb):
-        m = _BOX.fullmatch(cl[j].strip())
-        if not m:
+        # tolerant on purpose: an entry is "parsable" when its first two tokens are integer vectors; what follows
+        # (the cell-type token) is not needed to locate the box, so damage confined to it is not an inconsistency
+        toks = cl[j].split()
+        try:
+            lo = [int(x) for x in toks[0].replace("(", "").replace(")", "").split(",")]
+            hi = [int(x) for x in toks[1].replace("(", "").replace(")", "").split(",")]
+        except (IndexError, ValueError):
             raise RefError(f"{path}: bad box line {cl[j]!r}")
-        idx.append((_ints(m.group(1)), _ints(m.group(2)))); j += 1
+        idx.append((lo, hi)); j += 1
     if cl[j].strip() != ")":
         raise RefError(f"{path}: expected ')' got {cl[j]!r}")
     j += 1
